@@ -470,7 +470,7 @@ def status_class(sc, r):
     if not m:
         return ""
     e, model_healthy = int(m.group(1)), m.group(2) == "true"
-    st, fail, last_fail, send, a_succ, a_block, a_check = sc["steps"][r["step"] - 1]["st"]["h"][e - 1]
+    st, fail, last_fail, send, a_succ, a_block, a_check = sc["steps"][r["step"] - 1]["st"]["h"][e - 1][:7]
     if not st:
         return ":blocked-endpoint-changed-status"
     if model_healthy:
